@@ -101,6 +101,9 @@ ROWS = [
     ['', 'NO DATE', '1.00', 'x', ''],
     ['01/17/2025', 'THREE CELLS', '9.00'],
     ['01/18/2025', 'FOUR CELLS', '8.00', 'k4'],
+    # the same unparseable date text on consecutive rows: each of them is malformed on its own
+    ['Pending', 'PENDING ONE', '3.00', 'p', ''],
+    ['Pending', 'PENDING TWO', '4.00', 'p', ''],
     # every cell a description template could take its text from is blank: under a template made of placeholders only the description is empty
     ['01/19/2025', '  ', '6.00', '', ''],
 ]
@@ -328,7 +331,7 @@ def main():
         n = len(ROWS)
         # every single row, every pair (row independence), and a few long interleavings
         combos = [[i] for i in range(n)] + [list(p) for p in itertools.permutations(range(n), 2) if (p[0] + p[1] + O.seed) % (1 if O.tier != 'quick' else 3) == 0]
-        combos += [list(range(n)), list(reversed(range(n))), [0, 11, 1, 12, 2, 4, 3, 8, 13]]
+        combos += [list(range(n)), list(reversed(range(n))), [0, 11, 1, 12, 2, 4, 3, 8, 13], [0, 17, 18, 1], [17, 18, 0], [4, 4, 0]]
         for idx in combos:
             for fi in range(len(FORMATS)):
                 for delim, header in ((None, True), (None, False), ('tab', True), (';', True), ('\t', True), ('|', False)):
